@@ -2,6 +2,7 @@
 import math
 from fractions import Fraction
 
+import numpy as np
 from hypothesis import strategies as st
 
 from ECAgent.Core import Agent, ComponentNotFoundError, Model
@@ -11,7 +12,7 @@ from vf.fixtures import check, expect_raises, sized_lists, wone_of
 from vf.props.c04 import oob_error_ok
 
 PROPERTY = "C08"
-BUDGET = {"quick": 2400, "thorough": 6000}
+BUDGET = {"quick": 2400, "thorough": 7200}
 RULE = ("World kind {SpaceWorld, DiscreteWorld, LineWorld, GridWorld} x per-axis extent (0 or >= 1, deliberately unequal) x wrap "
         "flag; 1-4 agents; histories (1-30 ops, one in five 60-160 ops) of add(pos), move(delta: small / edge-crossing / multi-lap +-(3*extent+1) / far "
         "+-1e9 / mixed signs), move_to(pos in or out of range), remove. 'exact' cases use integers (grid) or dyadic k/8 floats "
@@ -68,14 +69,50 @@ def run_case(case):
     nontrivial = False
     positive = [ax for ax in range(3) if ext[ax] > 0]
     unequal = len({ext[ax] for ax in positive}) >= 2
+    decoy = None
+    if case.get("decoy"):
+        # a second world of the same kind but other extents and the opposite wrap flag, created afterwards and alive throughout,
+        # with an agent of the same id that walks along x: worlds are independent of each other
+        bump = 16 if cont else 2
+        dcase = dict(case, ext=[(int(v) + bump if float(v) > 0 else v) for v in case["ext"]], wrap=not wrap, num="exact")
+        dmodel, denv, dext, doff, dwrap, _ = build(dcase)
+        dagent = Agent("a0", dmodel)
+        denv.add_agent(dagent, 0, 0, 0)
+        decoy = [0]
+
+    as_np = bool(case.get("np"))          # numbers are handed over as numpy scalars (np.float64 / np.int64): numbers all the same
 
     def num(v):
         """case value -> (number handed to ECAgent, exact Fraction)"""
         if cont:
             if exact:
-                return int(v) / 8.0, Fraction(int(v), 8)
-            return float(v), Fraction(float(v))
-        return int(v), Fraction(int(v))
+                return (np.float64(int(v) / 8.0) if as_np else int(v) / 8.0), Fraction(int(v), 8)
+            return (np.float64(v) if as_np else float(v)), Fraction(float(v))
+        return (np.int64(int(v)) if as_np else int(v)), Fraction(int(v))
+
+    style = case.get("call", "pos")        # call convention: all positional | by keyword | trailing zeros left to the defaults
+
+    def conv(kind_, values):
+        values = list(values)
+        if style == "kw":
+            names = ("x_pos", "y_pos", "z_pos") if kind_ == "add" else ("x", "y", "z")
+            return (), dict(zip(names, values))
+        if style == "short":
+            while values and values[-1] == 0 and type(values[-1]) in (int, float):
+                values.pop()
+        return tuple(values), {}
+
+    def add_agent_(a_, values):
+        args_, kw_ = conv("add", values)
+        return env.add_agent(a_, *args_, **kw_)
+
+    def move_(a_, values):
+        args_, kw_ = conv("move", values)
+        return env.move(a_, *args_, **kw_)
+
+    def move_to_(a_, values):
+        args_, kw_ = conv("move", values)
+        return env.move_to(a_, *args_, **kw_)
 
     def hi(ax):
         return ext[ax] - off
@@ -122,7 +159,7 @@ def run_case(case):
                 vals = [num(v) for v in (list(op["pos"]) + [0, 0, 0])[:3]]
                 before = others_snapshot()
                 try:
-                    env.add_agent(agents[i], *[v[0] for v in vals])
+                    add_agent_(agents[i], [v[0] for v in vals])
                 except Exception:
                     pass
                 else:
@@ -138,7 +175,7 @@ def run_case(case):
             before = others_snapshot()
             if inrange:
                 try:
-                    env.add_agent(agents[i], *[v[0] for v in vals])
+                    add_agent_(agents[i], [v[0] for v in vals])
                 except Exception as e:
                     raise Violation("valid-placement-rejected", f"{where}: world {kind}{[str(e_) for e_ in ext]}: placing at "
                                                                 f"{[v[0] for v in vals]} raised {type(e).__name__}: {e}")
@@ -147,7 +184,7 @@ def run_case(case):
                     labels.add("placed-on-far-edge")
             else:
                 try:
-                    env.add_agent(agents[i], *[v[0] for v in vals])
+                    add_agent_(agents[i], [v[0] for v in vals])
                 except Exception as e:
                     if not oob_error_ok(e):
                         raise Violation("placement-wrong-error", f"{where}: raised {type(e).__name__}: {e}")
@@ -160,9 +197,9 @@ def run_case(case):
         elif kind_op == "move":
             vals = [num(v) for v in (list(op["d"]) + [0, 0, 0])[:3]]
             if i not in pos:
-                expect_raises("move-nonresident-error", ComponentNotFoundError, env.move, agents[i], *[v[0] for v in vals])
+                expect_raises("move-nonresident-error", ComponentNotFoundError, move_, agents[i], [v[0] for v in vals])
                 continue
-            env.move(agents[i], *[v[0] for v in vals])
+            move_(agents[i], [v[0] for v in vals])
             for ax in positive:
                 target = pos[i][ax] + vals[ax][1]
                 if wrap:
@@ -184,20 +221,20 @@ def run_case(case):
         elif kind_op == "move_to":
             vals = [num(v) for v in (list(op["pos"]) + [0, 0, 0])[:3]]
             if i not in pos:
-                expect_raises("move-nonresident-error", ComponentNotFoundError, env.move_to, agents[i], *[v[0] for v in vals])
+                expect_raises("move-nonresident-error", ComponentNotFoundError, move_to_, agents[i], [v[0] for v in vals])
                 continue
             inrange = all(0 <= vals[ax][1] <= hi(ax) for ax in positive)
             before = others_snapshot()
             if inrange:
                 try:
-                    env.move_to(agents[i], *[v[0] for v in vals])
+                    move_to_(agents[i], [v[0] for v in vals])
                 except Exception as e:
                     raise Violation("valid-move-to-rejected", f"{where}: world {kind}{[str(e_) for e_ in ext]}: move_to "
                                                               f"{[v[0] for v in vals]} raised {type(e).__name__}: {e}")
                 pos[i] = [v[1] for v in vals]
                 labels.add("move-to-accepted")
             else:
-                expect_raises("move-to-outside-error", IndexError, env.move_to, agents[i], *[v[0] for v in vals])
+                expect_raises("move-to-outside-error", IndexError, move_to_, agents[i], [v[0] for v in vals])
                 if others_snapshot() != before:
                     raise Violation("rejected-move-to-left-trace", f"{where}: positions changed from {before} to {others_snapshot()}")
                 labels.add("move-to-rejected")
@@ -209,7 +246,19 @@ def run_case(case):
             labels.add("removed")
         else:
             raise InvalidCase(op)
+        if decoy is not None and dext[0] > 0:
+            denv.move(dagent, 1, 0, 0)
+            decoy[0] = (decoy[0] + 1) % dext[0] if dwrap else min(decoy[0] + 1, dext[0] - doff)
+            dgot = dagent[PositionComponent].x
+            if Fraction(dgot) != decoy[0]:
+                raise Violation("other-world-disturbed", f"{where}: an agent walking along x in a second world (extent {dext[0]}, wrap={dwrap}) "
+                                                         f"stands at {dgot}, expected {decoy[0]}")
         check_all(where)
+    if decoy is not None:
+        labels.add("second-world-alive")
+    if as_np:
+        labels.add("numpy-scalars")
+    labels.add(f"call-{style}")
     labels.update([kind, "wrap" if wrap else "clamp", "exact" if exact else "float"])
     if any(e == 0 for e in ext):
         labels.add("zero-extent-axis")
@@ -272,7 +321,7 @@ def strategy(tier):
                 ops.append({"op": "move_to", "a": draw(a), "pos": [coord(0), coord(1), coord(2)]})
             else:
                 ops.append({"op": "remove", "a": draw(a)})
-        return {"kind": kind, "ext": ext, "wrap": wrap, "num": "exact" if exact else "float", "ops": ops}
+        return {"kind": kind, "ext": ext, "wrap": wrap, "num": "exact" if exact else "float", "ops": ops, "decoy": draw(st.integers(0, 3)) == 0, "np": draw(st.integers(0, 4)) == 0, "call": draw(st.sampled_from(["pos", "pos", "kw", "short"]))}
     return case()
 
 
